@@ -17,12 +17,25 @@ func accessPath(v ssa.Value) (string, bool) {
 	return pathD(v, 0)
 }
 
+// pathInlineClosures: print a call of a local function literal that consists of a
+// single return as that expression, with the parameters replaced by the
+// arguments (set by rules that compare expressions across functions).
+var pathInlineClosures bool
+var pathSubst = map[*ssa.Parameter]string{}
+
 func pathD(v ssa.Value, d int) (string, bool) {
-	if d > 14 || v == nil {
+	limit := 14
+	if pathInlineClosures {
+		limit = 40
+	}
+	if d > limit || v == nil {
 		return "?", false
 	}
 	switch x := v.(type) {
 	case *ssa.Parameter:
+		if s, ok := pathSubst[x]; ok {
+			return s, true
+		}
 		if paramAsIndex && x.Parent() != nil {
 			for i, p := range x.Parent().Params {
 				if p == x {
@@ -118,6 +131,30 @@ func pathD(v ssa.Value, d int) (string, bool) {
 		}
 		return s + "[" + lo + ":" + hi + "]", ok
 	case *ssa.Call:
+		if pathInlineClosures {
+			if cal := staticCallee(x); cal != nil && cal.Parent() != nil && len(cal.Blocks) == 1 && len(cal.Params) == len(x.Call.Args) {
+				if rets := returnsOf(cal); len(rets) == 1 && len(rets[0].Results) == 1 {
+					ok := true
+					saved := map[*ssa.Parameter]string{}
+					for i, par := range cal.Params {
+						s, o := pathD(x.Call.Args[i], d+1)
+						ok = ok && o
+						if old, had := pathSubst[par]; had {
+							saved[par] = old
+						}
+						pathSubst[par] = s
+					}
+					s, o := pathD(rets[0].Results[0], d+1)
+					for _, par := range cal.Params {
+						delete(pathSubst, par)
+						if old, had := saved[par]; had {
+							pathSubst[par] = old
+						}
+					}
+					return s, ok && o
+				}
+			}
+		}
 		name := calleeName(x)
 		var parts []string
 		ok := true
